@@ -17,12 +17,14 @@ ASSUMPTIONS = ["the realistic slave (lib/native.py) only shows behaviour the rea
                "the bridge documents 'No reordering': the reference applies write bursts in AW order (also across IDs) and expects B in AW order, R in AR order",
                "a write is 'in flight' from the first cycle its AWVALID or its first WVALID is high until its B handshake; 'read issued after the response' = ARVALID raised after the B handshake",
                "AXI4 legality of the master (lib/axi.py): valid held with stable payload until ready, W in AW order, no dependency of a valid on a ready, full-width size only (the only size the bridge documents)",
-               "buffer depth 1 is excluded from the generated devices: litex's SyncFIFO(depth=1) has a constant-zero level, the write path then never issues a command (probed separately, reported)",
-               "violations are confirmed on stock migen.sim before being reported; hang = cycle cap proportional to the number of beats reached with work outstanding"]
+               "write buffer depths 2..16 and read buffer depths 1..16 are drawn; write buffer depth 1 (accepted by the constructor, used by no caller in the tree) is probed by one extra device at the end of the last shard",
+               "violations are confirmed on stock migen.sim before being reported; hang = work outstanding when the cycle cap (proportional to the number of beats) is reached, or when no handshake on any "
+               "AXI channel and no native-port event happened for longer than twice the longest stall/gap/latency the testbench itself uses plus 100 cycles",
+               "the text after the second '/' of a finding key only names interface-observable conditions seen in the failing run (labels to keep different deviations apart); the verdict never depends on it"]
 
 NONTRIVIAL = {"write_WRAP", "write_FIXED", "read_WRAP", "read_FIXED", "read_just_after_b_same_address", "partial_strobe_rmw", "b_stalled_2_pending", "r_stalled_2_pending"}
 
-DEPTHS = [(16, 16), (2, 2), (4, 8), (8, 4), (3, 5), (16, 2), (2, 16), (7, 3), (5, 15), (15, 7), (4, 4)]
+DEPTHS = [(16, 16), (2, 2), (4, 8), (8, 1), (3, 5), (16, 2), (2, 16), (7, 3), (5, 15), (15, 7), (4, 4)]
 BASES = [0, 0x40000000, 0x10000]
 
 
@@ -63,7 +65,7 @@ def stims(draw, cfg, max_ops, max_beats, long_ok=True):
         burst = draw(st.sampled_from([ax.INCR, ax.INCR, ax.INCR, ax.WRAP, ax.FIXED]))
         if burst == ax.INCR:
             nbeat = draw(st.sampled_from([1, 1, 2, 2, 3, 4, 4, 5, 8, 8, 16, 17, 32]))
-            if long_ok and draw(st.integers(0, 15)) == 0:
+            if long_ok and draw(st.integers(0, 15)) == 15:
                 nbeat = draw(st.sampled_from([64, 100, 255, 256]))
             nbeat = min(nbeat, wpp)
         elif burst == ax.WRAP:
@@ -132,12 +134,14 @@ def shards(tier, seed):
     out = []
     for i in range(ns):
         mine = devs[i::ns]
+        k = (seed * 3 + i) % len(mine)
+        mine = mine[k:] + mine[:k]
         if tier == "quick":
-            k = (seed * 3 + i) % len(mine)
-            mine = (mine[k:] + mine[:k])[:3]
-            out.append(dict(tier=tier, seed=seed * 1000 + i, idx=i, devs=mine, ncases=40, max_ops=10, max_beats=90, long_every=4))
+            out.append(dict(tier=tier, seed=seed * 1000 + i, idx=i, devs=mine[:4], ncases=80, max_ops=10, max_beats=90, long_every=4))
         else:
             out.append(dict(tier=tier, seed=seed * 1000 + i, idx=i, devs=mine[:6], ncases=300, max_ops=16, max_beats=400, long_every=1))
+    # write buffer depth 1 is accepted by the constructor; probed by the last device of the last shard with a few cases
+    out[-1]["devs"] = out[-1]["devs"] + [dict(dw=32, aw=16, idw=2, wdepth=1, rdepth=1, base=0, rmw=0)]
     return out
 
 
@@ -164,7 +168,8 @@ def run_shard(sh):
                 fs = [f for f in fs if (f["clause"], f["key"]) == state["target"]]
             return fs
         long_ok = (di % sh["long_every"] == 0)
-        found = hyp_search(t, stims(cfg, sh["max_ops"], sh["max_beats"] if not long_ok else max(sh["max_beats"], 300), long_ok), sh["seed"] * 100 + di, sh["ncases"], shrink=True)
+        ncases = sh["ncases"] if cfg["wdepth"] > 1 else 6
+        found = hyp_search(t, stims(cfg, sh["max_ops"], sh["max_beats"] if not long_ok else max(sh["max_beats"], 300), long_ok), sh["seed"] * 100 + di, ncases, shrink=True)
         if found:
             stim, fs = found
             _, fm, _ = evaluate(cfg, stim, backend="migen")
